@@ -69,6 +69,11 @@ def check(run):
     if big:
         loadfam.replay_load(run, big, "Trace_Robust", "Trace_Robust.cfg", package="drv_codegen",
                             key_of=_key, tag="_codegen_big", per_case_timeout=900)
+    # the same adversarial projects written as YAML and as JSON5 (their readers type literals differently and can spell numbers JSON
+    # cannot: .inf / Infinity / NaN), through the parser and the code generator built for that format
+    for fmt in ("yaml", "json5"):
+        loadfam.replay_load(run, robust, "Trace_Robust", "Trace_Robust.cfg", package="drv_codegen", codegen_fmt=fmt, fmt=fmt,
+                            key_of=lambda c, r, f=fmt: f + ";" + _key(c, r), tag="_codegen_" + fmt, per_case_timeout=60)
     run.exhaustive = True
     run.notes["strings"] = len(strings)
     run.notes["adversarial_projects"] = len(robust)
